@@ -341,6 +341,11 @@ def loop_cases(rng):
             ("afterother", b"Delivered-To: other@" + host + b"\n" + dt + b"\nbody\n"),
             ("empty", b""),
             ("partial", b"Subject: t\n\nbody without newline"),
+            # header lines of exactly the length of the own field, with other contents, in front of it (a forwarding loop
+            # between two addresses of equal length looks like this on its second round)
+            ("aftersamelen", b"Delivered-To: " + bytes([local[0] ^ 1]) + local[1:] + b"@" + host + b"\n" + dt + b"\nbody\n"),
+            ("aftersamelen2", b"Received: by x\n" + b"X-Loop: " + b"y" * (len(dt) - 9) + b"\n" + b"Received: by z\n" + dt + b"Subject: s\n\nbody\n"),
+            ("samelenonly", b"Delivered-To: " + bytes([local[0] ^ 1]) + local[1:] + b"@" + host + b"\n" + MSG0),
         ]
         for nm, m in msgs:
             for which in range(3):
